@@ -1,11 +1,8 @@
 //! vcheck: property-based verification harness for reinterpretcat/vrp.
 #![allow(clippy::type_complexity, clippy::too_many_arguments)]
 
-#[macro_use]
-mod fw;
-mod engines;
-
-use fw::Tier;
+use vcheck::fw::Tier;
+use vcheck::{engines, fw, outln};
 use std::path::PathBuf;
 
 fn main() {
@@ -20,6 +17,13 @@ fn main() {
     let id = args[0].clone();
     if id == "dbg-json" {
         engines::e2e::debug_json(&args[1..]);
+        return;
+    }
+    if id == "dbg-config" {
+        // prints the solver configuration document of a saved e2e-style case
+        let doc: serde_json::Value = serde_json::from_str(&std::fs::read_to_string(&args[1]).unwrap()).unwrap();
+        let spec: engines::pgen::ConfigSpec = serde_json::from_value(doc["case"]["config"].clone()).unwrap();
+        outln!("{}", engines::pgen::render_config(&spec));
         return;
     }
     if id == "dbg-e2e" {
